@@ -17,8 +17,8 @@ REPORTERS = ('different_column_structure', 'missing_columns_detected', 'extra_co
 def check(run):
     p = run.prog
     roots = [p.fn(r) for r in ROOTS]
-    ief.run_ief(run, 'C05', roots, triage=triage.IEF)
-    run.floor('C05-IEF', run.units['ief_functions_checked'], 40)
+    run.attempt(ief.run_ief, run, 'C05', roots, triage=triage.IEF)
+    run.floor('C05-IEF', run.units.get('ief_functions_checked', 0), 40)
     pc = p.cls('PandasComparison')
     fns = [pc.methods[n] for n in ('check_dataframe', 'same_structure_ddiff', 'write_temporaries', 'check_serialized_dataframe') if n in pc.methods]
     if len(fns) < 4:
@@ -28,11 +28,11 @@ def check(run):
                     'condition, loading): near-mirror statement pairs must be exact mirrors under df<->ref_df')
     run.floor('C05-SYM', n, 50)
     cd = pc.methods['check_dataframe']
-    rfail(run, p, cd)
-    catfirst(run, p, cd)
-    prop(run, p, 'C05', DF_ASSERTS)
-    state(run, p, pc)
-    ordersrc(run, p, cd)
+    run.attempt(rfail, run, p, cd)
+    run.attempt(catfirst, run, p, cd)
+    run.attempt(prop, run, p, 'C05', DF_ASSERTS)
+    run.attempt(state, run, p, pc)
+    run.attempt(ordersrc, run, p, cd)
     nocache_rule(run, 'C05-NOCACHE', p, ['tdda.referencetest.checkpandas', 'tdda.referencetest.basecomparison'],
                  'frames handed to a comparison are never memoised: no caching decorator and no class-level container used as a cache in the '
                  'comparison modules (check_dataframe sorts its inputs in place, so a shared cached frame would change under later checks)')
